@@ -92,6 +92,11 @@ Share == {
   P("share", In3(5, -3, 7) \o <<SLet("Signal", "x", Num(5)), SLet("Signal", "y", Bin("+", Ref("x"), A)), SLet("Signal", "z", Bin("+", Ref("x"), Num(1)))>>),
   P("share", In3(5, -3, 7) \o <<SLet("Signal", "x", Bin("+", Num(2), Num(3))), SLet("Signal", "y", Bin("*", Ref("x"), A))>>),
   P("share", In3(5, -3, 7) \o <<SLet("Signal", "x", A), SLet("Signal", "y", Bin("+", Ref("x"), B))>>),
+  P("share", In3(5, -3, 7) \o <<SInt("k", Num(7)), SLet("Signal", "base", Proj(Bin("*", Ref("k"), Num(2)), TName("signal-B"))), SLet("Signal", "limit", Bin("+", Ref("base"), Num(3))),
+                                SLet("Signal", "scaled", Bin("*", A, Ref("base")))>>),
+  P("share", In3(5, -3, 7) \o <<SInt("k", Num(7)), SLet("Signal", "base", Proj(Bin("*", Ref("k"), Num(2)), TName("signal-B"))), SLet("Signal", "limit", Bin("+", Ref("base"), Num(3))),
+                                SLet("Signal", "over", Bin(">", A, Ref("base")))>>),
+  P("share", In3(5, -3, 7) \o <<SLet("Signal", "base", Lit(TName("signal-B"), Num(14))), SLet("Signal", "limit", Bin("*", Ref("base"), Num(3))), SLet("Signal", "scaled", Bin("-", A, Ref("base")))>>),
   P("share", In3(5, -3, 7) \o <<SLet("Signal", "x", Bin("*", A, Num(2))), SLet("Signal", "z", Bin("+", Ref("x"), Num(1))), SLet("Signal", "show", Ref("x"))>>),
   P("share", In3(5, -3, 7) \o <<SLet("Signal", "show", Ref("a")), SLet("Signal", "z", Bin("+", A, Num(1)))>>),
   P("share", In3(5, -3, 7) \o <<SLet("Signal", "s", Bin("+", A, B)), SLet("Signal", "z", Bin("*", Ref("s"), Num(2))), SLet("Signal", "p", Ref("s")), SLet("Signal", "q", Ref("s"))>>),
